@@ -34,6 +34,7 @@ def runCase (lines : Array String) : Array String := Id.run do
       out := out.push (if raw.dead then "sub died" else if raw.errs.length > before.errs.length then "sub err" else "sub ok")
     | ["racepub", _, _] => out := out.push "racepub ok"
     | ["cancelresume", _, _, _] => out := out.push "cancelresume ok"
+    | ["livechain", _, _, _] => out := out.push "livechain ok"
     | ["restart"] =>
       s := stepOp plan s .restart
       out := out.push "restart"
